@@ -4,10 +4,12 @@ multisets of handles with a value per handle — and the proof that the model re
 every operation sequence.
 
 Spec state (`HSpec`): for each of the two heaps the list of LIVE handles (order irrelevant: the
-relation to the model is `List.Perm`), the value of every handle, the allocation counter.
+relation to the model is `List.Perm`), the value of every handle, the allocation counter, the
+comparator of each heap (given to `New`, replaced by every `Init`).
 A spec step is given by
-* `specPre s op`   — what the client must respect (only: `PushElement` takes a detached,
-  allocated element; a value changed through `setFix h e v` belongs to no OTHER heap),
+* `specPre s op`   — what the client must respect (only: the comparator given to `Init` is a
+  strict weak order; `PushElement` takes a detached, allocated element; a value changed through
+  `setFix h e v` belongs to no OTHER heap),
 * `specOK s op r`  — which results `r` are allowed (`Pop`/`Peek`: nil iff empty, else a live
   handle no live handle precedes; `PopAll`: the values, each once, sorted),
 * `specStep s op r` — the next state (`Remove(e)`: the live handles minus `e`, which is the
@@ -25,47 +27,51 @@ structure HSpec where
   live  : Fin 2 → List Nat
   val   : Nat → Int
   fresh : Nat
+  cmp   : Fin 2 → Int → Int → Bool
 
-def HSpec.zero : HSpec := { live := fun _ => [], val := fun _ => 0, fresh := 0 }
+def HSpec.zero (cmp : Int → Int → Bool) : HSpec :=
+  { live := fun _ => [], val := fun _ => 0, fresh := 0, cmp := fun _ => cmp }
 
 /-- replace the live handles of heap `h` -/
 def HSpec.setLive (s : HSpec) (h : Fin 2) (l : List Nat) : Fin 2 → List Nat :=
   fun h' => if h' = h then l else s.live h'
 
 def specPre (s : HSpec) : HOp → Prop
+  | .init _ c _ => SWO c
   | .pushElem _ e => e < s.fresh ∧ ∀ h', e ∉ s.live h'
   | .setFix h e _ => ∀ h', h' ≠ h → e ∉ s.live h'
   | _ => True
 
-/-- `e` is live in `h` and no live element of `h` precedes it. -/
-def IsMin (cmp : Int → Int → Bool) (s : HSpec) (h : Fin 2) (e : Nat) : Prop :=
-  e ∈ s.live h ∧ ∀ y, y ∈ s.live h → cmp (s.val y) (s.val e) = false
+/-- `e` is live in `h` and no live element of `h` precedes it (in `h`'s comparator). -/
+def IsMin (s : HSpec) (h : Fin 2) (e : Nat) : Prop :=
+  e ∈ s.live h ∧ ∀ y, y ∈ s.live h → s.cmp h (s.val y) (s.val e) = false
 
-def MinRet (cmp : Int → Int → Bool) (s : HSpec) (h : Fin 2) (r : HRet) : Prop :=
-  (s.live h = [] ∧ r = .handle none) ∨ ∃ e, r = .handle (some e) ∧ IsMin cmp s h e
+def MinRet (s : HSpec) (h : Fin 2) (r : HRet) : Prop :=
+  (s.live h = [] ∧ r = .handle none) ∨ ∃ e, r = .handle (some e) ∧ IsMin s h e
 
-def specOK (cmp : Int → Int → Bool) (s : HSpec) : HOp → HRet → Prop
-  | .init _ _, r => r = .unit
+def specOK (s : HSpec) : HOp → HRet → Prop
+  | .init _ _ _, r => r = .unit
   | .push _ _, r => r = .handle (some s.fresh)
   | .pushElem _ _, r => r = .unit
-  | .pop h, r => MinRet cmp s h r
-  | .peek h, r => MinRet cmp s h r
+  | .pop h, r => MinRet s h r
+  | .peek h, r => MinRet s h r
   | .len h, r => r = .len (s.live h).length
   | .remove _ _, r => r = .unit
   | .fix _ _, r => r = .unit
   | .setFix _ _ _, r => r = .unit
   | .popAll h, r => ∃ xs, r = .vals xs ∧ xs.Perm ((s.live h).map s.val) ∧
-      xs.Pairwise (fun a b => cmp b a = false)
+      xs.Pairwise (fun a b => s.cmp h b a = false)
 
 def specStep (s : HSpec) : HOp → HRet → HSpec
-  | .init h vs, _ =>
+  | .init h c vs, _ =>
     { live := s.setLive h (List.range' s.fresh vs.length),
       val := fun e => if s.fresh ≤ e ∧ e < s.fresh + vs.length then vs.getD (e - s.fresh) 0 else s.val e,
-      fresh := s.fresh + vs.length }
+      fresh := s.fresh + vs.length,
+      cmp := fun h' => if h' = h then c else s.cmp h' }
   | .push h x, _ =>
-    { live := s.setLive h (s.fresh :: s.live h),
-      val := fun e => if e = s.fresh then x else s.val e,
-      fresh := s.fresh + 1 }
+    { s with live := s.setLive h (s.fresh :: s.live h),
+             val := fun e => if e = s.fresh then x else s.val e,
+             fresh := s.fresh + 1 }
   | .pushElem h e, _ => { s with live := s.setLive h (e :: s.live h) }
   | .pop h, .handle (some e) => { s with live := s.setLive h ((s.live h).erase e) }
   | .remove h e, _ => { s with live := s.setLive h ((s.live h).erase e) }
@@ -73,25 +79,27 @@ def specStep (s : HSpec) : HOp → HRet → HSpec
   | .popAll h, _ => { s with live := s.setLive h [] }
   | _, _ => s
 
-/-- The refinement relation: the invariant of the memory, and `h.values` holds exactly the live
-handles of `h`. -/
-structure Rel (cmp : Int → Int → Bool) (m : HMem) (s : HSpec) : Prop where
-  ok : MemOK cmp m
-  live : ∀ h : Fin 2, (m.arr h.val).Perm (s.live h)
-  val : ∀ e, m.val.get e = s.val e
-  fresh : m.fresh = s.fresh
+/-- The refinement relation: the invariant of the memory, `h.values` holds exactly the live
+handles of `h`, `h.cmp` is the spec's comparator of `h` and a strict weak order. -/
+structure Rel (st : HState) (s : HSpec) : Prop where
+  ok : MemOK st.cmp st.m
+  live : ∀ h : Fin 2, (st.m.arr h.val).Perm (s.live h)
+  val : ∀ e, st.m.val.get e = s.val e
+  fresh : st.m.fresh = s.fresh
+  cmpEq : ∀ h : Fin 2, st.cmp h.val = s.cmp h
+  swo : ∀ h : Fin 2, SWO (s.cmp h)
 
 /-- Along `ops`, as long as the client respects the preconditions (judged on the spec state):
 no operation panics, its result is one the spec allows, and the relation holds again. -/
-def Refines (cmp : Int → Int → Bool) : List HOp → HMem → HSpec → Prop
+def Refines : List HOp → HState → HSpec → Prop
   | [], _, _ => True
-  | op :: ops, m, s =>
-    specPre s op → ∃ m' r, stepH cmp m op = some (m', r) ∧ specOK cmp s op r ∧
-      Rel cmp m' (specStep s op r) ∧ Refines cmp ops m' (specStep s op r)
+  | op :: ops, st, s =>
+    specPre s op → ∃ st' r, stepH st op = some (st', r) ∧ specOK s op r ∧
+      Rel st' (specStep s op r) ∧ Refines ops st' (specStep s op r)
 
 /-! ### the empty memory -/
 
-theorem memOK_zero (cmp : Int → Int → Bool) : MemOK cmp HMem.zero := by
+theorem memOK_zero (cm : Nat → Int → Int → Bool) : MemOK cm HMem.zero := by
   have harr : ∀ h, HMem.zero.arr h = [] := by intro h; unfold HMem.arr HMem.zero; split <;> rfl
   refine ⟨⟨?_, ?_, ?_, ?_⟩, ?_, ?_⟩
   · intro h _; exact ⟨by rw [harr]; exact List.nodup_nil, by intro k e hk; rw [harr] at hk; simp at hk⟩
@@ -99,14 +107,16 @@ theorem memOK_zero (cmp : Int → Int → Bool) : MemOK cmp HMem.zero := by
   · intro e h he; simp [HMem.zero, PM.get_empty] at he
   · intro h _ e he; rw [harr] at he; cases he
   · intro e _ hf; simp [HMem.zero] at hf
-  · intro h _; unfold HeapOrd; rw [harr]; exact heap_nil cmp
+  · intro h _; unfold HeapOrd; rw [harr]; exact heap_nil _
 
-theorem rel_zero (cmp : Int → Int → Bool) : Rel cmp HMem.zero HSpec.zero := by
-  refine ⟨memOK_zero cmp, ?_, ?_, rfl⟩
+theorem rel_zero {cmp} (hs : SWO cmp) : Rel (HState.zero cmp) (HSpec.zero cmp) := by
+  refine ⟨memOK_zero _, ?_, ?_, rfl, ?_, fun _ => hs⟩
   · intro h
     have : HMem.zero.arr h.val = [] := by unfold HMem.arr HMem.zero; split <;> rfl
-    rw [this]; exact List.Perm.refl _
-  · intro e; simp [HMem.zero, HSpec.zero, IM.get_empty]
+    show (HMem.zero.arr h.val).Perm []
+    rw [this]
+  · intro e; simp [HState.zero, HMem.zero, HSpec.zero, IM.get_empty]
+  · intro h; simp [HState.zero, HState.cmp, HSpec.zero]
 
 /-! ### one step -/
 
@@ -115,12 +125,20 @@ theorem fin_oth {h h' : Fin 2} (hne : h' ≠ h) : h'.val = oth h.val := by
   · exact absurd (Fin.ext e) hne
   · exact e
 
-theorem rel_mk {cmp} {m m' : HMem} {s s' : HSpec} (R : Rel cmp m s) (h : Fin 2) (hok : MemOK cmp m')
-    (hl : (m'.arr h.val).Perm (s'.live h)) (ho : m'.arr (oth h.val) = m.arr (oth h.val))
+theorem memOK_congr {cm cm' : Nat → Int → Int → Bool} {m : HMem} (h : MemOK cm m)
+    (e : ∀ h, h < 2 → cm' h = cm h) : MemOK cm' m :=
+  ⟨h.core, h.left, fun h' hh' => by rw [e h' hh']; exact h.ord h' hh'⟩
+
+/-- the state after an operation that does not touch the comparators -/
+theorem rel_mk {st : HState} {m' : HMem} {s s' : HSpec} (R : Rel st s) (h : Fin 2)
+    (hok : MemOK st.cmp m')
+    (hl : (m'.arr h.val).Perm (s'.live h)) (ho : m'.arr (oth h.val) = st.m.arr (oth h.val))
     (hs : ∀ h' : Fin 2, h' ≠ h → s'.live h' = s.live h')
-    (hv : ∀ e, m'.val.get e = s'.val e) (hf : m'.fresh = s'.fresh) : Rel cmp m' s' := by
-  refine ⟨hok, ?_, hv, hf⟩
+    (hv : ∀ e, m'.val.get e = s'.val e) (hf : m'.fresh = s'.fresh) (hc : s'.cmp = s.cmp) :
+    Rel { st with m := m' } s' := by
+  refine ⟨hok, ?_, hv, hf, fun h' => by rw [hc]; exact R.cmpEq h', fun h' => by rw [hc]; exact R.swo h'⟩
   intro h'
+  show (m'.arr h'.val).Perm (s'.live h')
   by_cases hne : h' = h
   · subst hne; exact hl
   · rw [hs h' hne, fin_oth hne, ho, ← fin_oth hne]; exact R.live h'
@@ -132,13 +150,13 @@ theorem setLive_other (s : HSpec) (h : Fin 2) (l : List Nat) (h' : Fin 2) (hne :
     s.setLive h l h' = s.live h' := by
   simp [HSpec.setLive, hne]
 
-theorem mem_live_iff {cmp} {m : HMem} {s : HSpec} (R : Rel cmp m s) (h : Fin 2) (e : Nat) :
-    e ∈ s.live h ↔ m.own.get e = some h.val :=
+theorem mem_live_iff {st : HState} {s : HSpec} (R : Rel st s) (h : Fin 2) (e : Nat) :
+    e ∈ s.live h ↔ st.m.own.get e = some h.val :=
   ((R.live h).mem_iff).symm.trans (R.ok.core.own e h.val h.isLt).symm
 
-theorem own_none_of_dead {cmp} {m : HMem} {s : HSpec} (R : Rel cmp m s) {e : Nat}
-    (hd : ∀ h', e ∉ s.live h') : m.own.get e = none := by
-  cases ho : m.own.get e with
+theorem own_none_of_dead {st : HState} {s : HSpec} (R : Rel st s) {e : Nat}
+    (hd : ∀ h', e ∉ s.live h') : st.m.own.get e = none := by
+  cases ho : st.m.own.get e with
   | none => rfl
   | some h' =>
     have hh' := R.ok.core.ownR e h' ho
@@ -149,50 +167,89 @@ theorem perm_erase_of_cons {a : Nat} {l l' : List Nat} (h : (a :: l').Perm l) : 
   simpa using this
 
 /-- changing the value of an element that is in no heap keeps the invariant -/
-theorem memOK_setVal_dead {cmp} {m : HMem} (hok : MemOK cmp m) {e : Nat} (v : Int)
-    (hd : ∀ h, h < 2 → e ∉ m.arr h) : MemOK cmp ({ m with val := m.val.set e v } : HMem) := by
+theorem memOK_setVal_dead {cm} {m : HMem} (hok : MemOK cm m) {e : Nat} (v : Int)
+    (hd : ∀ h, h < 2 → e ∉ m.arr h) : MemOK cm ({ m with val := m.val.set e v } : HMem) := by
   have hc0 := hok.core
   refine ⟨⟨fun h' hh' => ⟨(hc0.idx h' hh').nodup, (hc0.idx h' hh').index⟩, hc0.own, hc0.ownR, hc0.ltf⟩,
     hok.left, ?_⟩
   intro h hh
   rw [heapOrd_iff]
-  refine ordAt_congr (m := m) rfl ?_ ((heapOrd_iff cmp m h).1 (hok.ord h hh))
+  refine ordAt_congr (m := m) rfl ?_ ((heapOrd_iff (cm h) m h).1 (hok.ord h hh))
   intro x hx
   show (m.val.set e v).get x = _
   rw [IM.get_set]
   have : x ≠ e := fun hxe => hd h hh (hxe ▸ hx)
   simp [this]
 
-theorem minRet_of {cmp} (hs : SWO cmp) {m : HMem} {s : HSpec} (R : Rel cmp m s) (h : Fin 2)
-    (hne : m.arr h.val ≠ []) : IsMin cmp s h (elemAt m h.val 0) := by
-  have hpos : 0 < (m.arr h.val).length := List.length_pos_iff.2 hne
+theorem swo_of {st : HState} {s : HSpec} (R : Rel st s) (h : Fin 2) : SWO (st.cmp h.val) := by
+  rw [R.cmpEq h]; exact R.swo h
+
+theorem minRet_of {st : HState} {s : HSpec} (R : Rel st s) (h : Fin 2)
+    (hne : st.m.arr h.val ≠ []) : IsMin s h (elemAt st.m h.val 0) := by
+  have hpos : 0 < (st.m.arr h.val).length := List.length_pos_iff.2 hne
   refine ⟨(R.live h).mem_iff.1 (elemAt_mem hpos), ?_⟩
   intro y hy
-  have := heapOrd_root_min hs (R.ok.ord h.val h.isLt) y ((R.live h).mem_iff.2 hy)
-  rwa [R.val, R.val] at this
+  have := heapOrd_root_min (swo_of R h) (R.ok.ord h.val h.isLt) y ((R.live h).mem_iff.2 hy)
+  rwa [R.val, R.val, R.cmpEq h] at this
 
-theorem live_nil_iff {cmp} {m : HMem} {s : HSpec} (R : Rel cmp m s) (h : Fin 2) :
-    m.arr h.val = [] ↔ s.live h = [] := by
+theorem live_nil_iff {st : HState} {s : HSpec} (R : Rel st s) (h : Fin 2) :
+    st.m.arr h.val = [] ↔ s.live h = [] := by
   constructor
   · intro h0; have := R.live h; rw [h0] at this; exact List.Perm.nil_eq this |>.symm
   · intro h0; have := R.live h; rw [h0] at this; exact List.Perm.eq_nil this
 
-theorem step_refines {cmp} (hs : SWO cmp) {m : HMem} {s : HSpec} (R : Rel cmp m s) (op : HOp)
+theorem step_refines {st : HState} {s : HSpec} (R : Rel st s) (op : HOp)
     (hpre : specPre s op) :
-    ∃ m' r, stepH cmp m op = some (m', r) ∧ specOK cmp s op r ∧ Rel cmp m' (specStep s op r) := by
+    ∃ st' r, stepH st op = some (st', r) ∧ specOK s op r ∧ Rel st' (specStep s op r) := by
   have hok := R.ok
   cases op with
-  | init h vs =>
-    obtain ⟨m', hrun, hok', hperm, hoth, hfresh, hval⟩ := init_spec hs h.isLt hok vs
-    refine ⟨m', .unit, by simp [stepH, hrun], rfl, ?_⟩
-    refine rel_mk R h hok' ?_ hoth (fun h' hne => setLive_other s h _ h' hne) ?_ ?_
-    · simp only [specStep, setLive_self]; rw [← R.fresh]; exact hperm
-    · intro e; rw [hval e]; simp only [specStep, R.fresh, R.val]
-    · simp only [specStep]; rw [hfresh, R.fresh]
+  | init h c vs =>
+    have hsc : SWO c := hpre
+    obtain ⟨m', hrun, hok', hperm, hoth, hfresh, hval⟩ := init_spec hsc h.isLt hok vs
+    refine ⟨{ st.setCmp h.val c with m := m' }, .unit, by simp [stepH, hrun], rfl, ?_⟩
+    have hcmp : ∀ h' : Fin 2, ({ st.setCmp h.val c with m := m' } : HState).cmp h'.val
+        = if h' = h then c else st.cmp h'.val := by
+      intro h'
+      have h2 : h'.val = 0 ∨ h'.val = 1 := lt2_cases h'.isLt
+      have h3 : h.val = 0 ∨ h.val = 1 := lt2_cases h.isLt
+      by_cases e : h' = h
+      · subst e; rcases h2 with h2 | h2 <;> simp [HState.cmp, HState.setCmp, h2]
+      · have : h'.val ≠ h.val := fun hh => e (Fin.ext hh)
+        rcases h2 with h2 | h2 <;> rcases h3 with h3 | h3 <;>
+          simp [HState.cmp, HState.setCmp, h2, h3, e] <;> omega
+    refine ⟨?_, ?_, ?_, ?_, ?_, ?_⟩
+    · refine memOK_congr hok' ?_
+      intro h' hh'
+      have := hcmp ⟨h', hh'⟩
+      simp only at this
+      rw [this]
+      by_cases e : (⟨h', hh'⟩ : Fin 2) = h
+      · have e' : h' = h.val := by rw [← e]
+        simp [e, updC, e']
+      · have e' : h' ≠ h.val := fun hh => e (Fin.ext hh)
+        simp [e, updC, e']
+    · intro h'
+      show (m'.arr h'.val).Perm _
+      by_cases hne : h' = h
+      · subst hne; simp only [specStep, setLive_self]; rw [← R.fresh]; exact hperm
+      · simp only [specStep, setLive_other s h _ h' hne]
+        rw [fin_oth hne, hoth, ← fin_oth hne]; exact R.live h'
+    · intro e; show m'.val.get e = _; rw [hval e]; simp only [specStep, R.fresh, R.val]
+    · show m'.fresh = _; simp only [specStep]; rw [hfresh, R.fresh]
+    · intro h'
+      rw [hcmp h']
+      simp only [specStep]
+      by_cases e : h' = h <;> simp [e, R.cmpEq h']
+    · intro h'
+      simp only [specStep]
+      by_cases e : h' = h
+      · simp [e]; exact hsc
+      · simp [e]; exact R.swo h'
   | push h x =>
-    obtain ⟨m', hrun, hok', hperm, hoth, hval, hfresh⟩ := push_spec hs h.isLt hok x
-    refine ⟨m', .handle (some m.fresh), by simp [stepH, hrun], by simp [specOK, R.fresh], ?_⟩
-    refine rel_mk R h hok' ?_ hoth (fun h' hne => setLive_other s h _ h' hne) ?_ ?_
+    obtain ⟨m', hrun, hok', hperm, hoth, hval, hfresh⟩ := push_spec (swo_of R h) h.isLt hok x
+    refine ⟨{ st with m := m' }, .handle (some st.m.fresh), by simp [stepH, hrun],
+      by simp [specOK, R.fresh], ?_⟩
+    refine rel_mk R h hok' ?_ hoth (fun h' hne => setLive_other s h _ h' hne) ?_ ?_ rfl
     · simp only [specStep, setLive_self]; rw [← R.fresh]
       exact hperm.trans (List.Perm.cons _ (R.live h))
     · intro e; rw [hval, IM.get_set]; simp only [specStep, R.fresh, R.val]
@@ -201,107 +258,110 @@ theorem step_refines {cmp} (hs : SWO cmp) {m : HMem} {s : HSpec} (R : Rel cmp m 
     obtain ⟨hf, hd⟩ := hpre
     have hown := own_none_of_dead R hd
     obtain ⟨m', hrun, hok', hperm, hoth, hval, hfresh⟩ :=
-      pushElement_core hs h.isLt hok.core (fun x _ hxf hxo => hok.left x trivial hxf hxo) hok.ord
+      pushElement_core (swo_of R h) h.isLt hok.core (fun x _ hxf hxo => hok.left x trivial hxf hxo) hok.ord
         (by rw [R.fresh]; exact hf) hown
-    refine ⟨m', .unit, by simp [stepH, hrun], rfl, ?_⟩
-    refine rel_mk R h hok' ?_ hoth (fun h' hne => setLive_other s h _ h' hne) ?_ ?_
+    refine ⟨{ st with m := m' }, .unit, by simp [stepH, hrun], rfl, ?_⟩
+    refine rel_mk R h hok' ?_ hoth (fun h' hne => setLive_other s h _ h' hne) ?_ ?_ rfl
     · simp only [specStep, setLive_self]
       exact hperm.trans (List.Perm.cons _ (R.live h))
     · intro e'; rw [hval]; exact R.val e'
     · rw [hfresh]; exact R.fresh
   | pop h =>
-    by_cases h0 : m.arr h.val = []
-    · refine ⟨m, .handle none, by simp [stepH, (pop_spec hs h.isLt hok).1 h0], ?_, R⟩
+    by_cases h0 : st.m.arr h.val = []
+    · refine ⟨{ st with m := st.m }, .handle none,
+        by simp [stepH, (pop_spec (swo_of R h) h.isLt hok).1 h0], ?_, R⟩
       exact Or.inl ⟨(live_nil_iff R h).1 h0, rfl⟩
-    · obtain ⟨m', hrun, hrm⟩ := (pop_spec hs h.isLt hok).2 h0
-      refine ⟨m', .handle (some (elemAt m h.val 0)), by simp [stepH, hrun], ?_, ?_⟩
-      · exact Or.inr ⟨_, rfl, minRet_of hs R h h0⟩
-      · refine rel_mk R h hrm.ok ?_ hrm.other (fun h' hne => setLive_other s h _ h' hne) ?_ ?_
+    · obtain ⟨m', hrun, hrm⟩ := (pop_spec (swo_of R h) h.isLt hok).2 h0
+      refine ⟨{ st with m := m' }, .handle (some (elemAt st.m h.val 0)), by simp [stepH, hrun], ?_, ?_⟩
+      · exact Or.inr ⟨_, rfl, minRet_of R h h0⟩
+      · refine rel_mk R h hrm.ok ?_ hrm.other (fun h' hne => setLive_other s h _ h' hne) ?_ ?_ rfl
         · simp only [specStep, setLive_self]
           exact perm_erase_of_cons (hrm.perm.trans (R.live h))
         · intro e; rw [hrm.val]; exact R.val e
         · rw [hrm.fresh]; exact R.fresh
   | peek h =>
-    by_cases h0 : m.arr h.val = []
-    · refine ⟨m, .handle none, by simp [stepH, (peek_spec m h.val).1 h0], ?_, R⟩
+    by_cases h0 : st.m.arr h.val = []
+    · refine ⟨st, .handle none, by simp [stepH, (peek_spec st.m h.val).1 h0], ?_, R⟩
       exact Or.inl ⟨(live_nil_iff R h).1 h0, rfl⟩
-    · refine ⟨m, .handle (some (elemAt m h.val 0)), by simp [stepH, (peek_spec m h.val).2 h0], ?_, R⟩
-      exact Or.inr ⟨_, rfl, minRet_of hs R h h0⟩
+    · refine ⟨st, .handle (some (elemAt st.m h.val 0)), by simp [stepH, (peek_spec st.m h.val).2 h0], ?_, R⟩
+      exact Or.inr ⟨_, rfl, minRet_of R h h0⟩
   | len h =>
-    refine ⟨m, .len (m.arr h.val).length, rfl, ?_, R⟩
+    refine ⟨st, .len (st.m.arr h.val).length, rfl, ?_, R⟩
     simp [specOK, (R.live h).length_eq]
   | remove h e =>
-    by_cases hown : m.own.get e = some h.val
-    · obtain ⟨m', hrun, hrm⟩ := remove_spec hs h.isLt hok hown
-      refine ⟨m', .unit, by simp [stepH, hrun], rfl, ?_⟩
-      refine rel_mk R h hrm.ok ?_ hrm.other (fun h' hne => setLive_other s h _ h' hne) ?_ ?_
+    by_cases hown : st.m.own.get e = some h.val
+    · obtain ⟨m', hrun, hrm⟩ := remove_spec (swo_of R h) h.isLt hok hown
+      refine ⟨{ st with m := m' }, .unit, by simp [stepH, hrun], rfl, ?_⟩
+      refine rel_mk R h hrm.ok ?_ hrm.other (fun h' hne => setLive_other s h _ h' hne) ?_ ?_ rfl
       · simp only [specStep, setLive_self]
         exact perm_erase_of_cons (hrm.perm.trans (R.live h))
       · intro e'; rw [hrm.val]; exact R.val e'
       · rw [hrm.fresh]; exact R.fresh
-    · have hrun := (heap_handles_ignored cmp m h.val e hown).1
-      refine ⟨m, .unit, by simp [stepH, hrun], rfl, ?_⟩
+    · have hrun := (heap_handles_ignored (st.cmp h.val) st.m h.val e hown).1
+      refine ⟨{ st with m := st.m }, .unit, by simp [stepH, hrun], rfl, ?_⟩
       have hnot : e ∉ s.live h := fun he => hown ((mem_live_iff R h e).1 he)
-      refine rel_mk R h hok ?_ rfl (fun h' hne => setLive_other s h _ h' hne) R.val R.fresh
+      refine rel_mk R h hok ?_ rfl (fun h' hne => setLive_other s h _ h' hne) R.val R.fresh rfl
       simp only [specStep, setLive_self]
       rw [List.erase_of_not_mem hnot]; exact R.live h
   | fix h e =>
-    by_cases hown : m.own.get e = some h.val
+    by_cases hown : st.m.own.get e = some h.val
     · obtain ⟨m', hrun, hok', hperm, hoth, hval, hfresh⟩ :=
-        fixElem_spec hs (val' := m.val) h.isLt hok (fun _ _ => rfl) hown
-      have hrun' : m.fixElem cmp h.val e = some m' := hrun
-      refine ⟨m', .unit, by simp [stepH, hrun'], rfl, ?_⟩
-      refine rel_mk R h hok' (hperm.trans (R.live h)) hoth (fun _ _ => rfl) ?_ ?_
+        fixElem_spec (val' := st.m.val) (swo_of R h) h.isLt hok (fun _ _ => rfl) hown
+      have hrun' : st.m.fixElem (st.cmp h.val) h.val e = some m' := hrun
+      refine ⟨{ st with m := m' }, .unit, by simp [stepH, hrun'], rfl, ?_⟩
+      refine rel_mk R h hok' (hperm.trans (R.live h)) hoth (fun _ _ => rfl) ?_ ?_ rfl
       · intro e'; rw [hval]; exact R.val e'
       · rw [hfresh]; exact R.fresh
-    · have hrun := (heap_handles_ignored cmp m h.val e hown).2
-      exact ⟨m, .unit, by simp [stepH, hrun], rfl, R⟩
+    · have hrun := (heap_handles_ignored (st.cmp h.val) st.m h.val e hown).2
+      exact ⟨{ st with m := st.m }, .unit, by simp [stepH, hrun], rfl, R⟩
   | setFix h e v =>
-    have hvalS : ∀ (m' : HMem), m'.val = m.val.set e v →
+    have hvalS : ∀ (m' : HMem), m'.val = st.m.val.set e v →
         ∀ x, m'.val.get x = (specStep s (.setFix h e v) .unit).val x := by
       intro m' hm' x
       rw [hm', IM.get_set]; simp only [specStep, R.val]
-    by_cases hown : m.own.get e = some h.val
+    by_cases hown : st.m.own.get e = some h.val
     · obtain ⟨m', hrun, hok', hperm, hoth, hval, hfresh⟩ :=
-        fixElem_spec hs (val' := m.val.set e v) h.isLt hok
+        fixElem_spec (val' := st.m.val.set e v) (swo_of R h) h.isLt hok
           (fun x hx => by rw [IM.get_set]; simp [hx]) hown
-      refine ⟨m', .unit, by simp [stepH, hrun], rfl, ?_⟩
-      refine rel_mk R h hok' (hperm.trans (R.live h)) hoth (fun _ _ => rfl) (hvalS m' hval) ?_
+      refine ⟨{ st with m := m' }, .unit, by simp [stepH, hrun], rfl, ?_⟩
+      refine rel_mk R h hok' (hperm.trans (R.live h)) hoth (fun _ _ => rfl) (hvalS m' hval) ?_ rfl
       rw [hfresh]; exact R.fresh
-    · let m1 : HMem := { m with val := m.val.set e v }
-      have hrun : m1.fixElem cmp h.val e = some m1 := (heap_handles_ignored cmp m1 h.val e hown).2
-      have hdead : ∀ h', h' < 2 → e ∉ m.arr h' := by
+    · let m1 : HMem := { st.m with val := st.m.val.set e v }
+      have hrun : m1.fixElem (st.cmp h.val) h.val e = some m1 :=
+        (heap_handles_ignored (st.cmp h.val) m1 h.val e hown).2
+      have hdead : ∀ h', h' < 2 → e ∉ st.m.arr h' := by
         intro h' hh' he
         by_cases hne : (⟨h', hh'⟩ : Fin 2) = h
         · exact hown (by rw [← hne]; exact (hok.core.own e h' hh').2 he)
         · exact hpre ⟨h', hh'⟩ hne ((R.live ⟨h', hh'⟩).mem_iff.1 he)
-      have hstep : stepH cmp m (.setFix h e v) = some (m1, .unit) := by
-        show (m1.fixElem cmp h.val e).map (fun m2 => (m2, HRet.unit)) = _
+      have hstep : stepH st (.setFix h e v) = some ({ st with m := m1 }, .unit) := by
+        show (m1.fixElem (st.cmp h.val) h.val e).map (fun m2 => (({ st with m := m2 } : HState), HRet.unit)) = _
         rw [hrun]; rfl
-      refine ⟨m1, .unit, hstep, rfl, ?_⟩
-      exact ⟨memOK_setVal_dead hok v hdead, R.live, hvalS m1 rfl, R.fresh⟩
+      refine ⟨{ st with m := m1 }, .unit, hstep, rfl, ?_⟩
+      exact ⟨memOK_setVal_dead hok v hdead, R.live, hvalS m1 rfl, R.fresh, R.cmpEq, R.swo⟩
   | popAll h =>
     obtain ⟨m', xs, hrun, hok', hemp, hoth, hval, hfresh, hperm, hsorted⟩ :=
-      popAll_spec hs h.isLt (m.arr h.val).length m rfl hok
-    refine ⟨m', .vals xs, by simp [stepH, hrun], ⟨xs, rfl, ?_, hsorted⟩, ?_⟩
+      popAll_spec (swo_of R h) h.isLt (st.m.arr h.val).length st.m rfl hok
+    refine ⟨{ st with m := m' }, .vals xs, by simp [stepH, hrun], ⟨xs, rfl, ?_, ?_⟩, ?_⟩
     · refine hperm.trans ?_
-      have : (m.arr h.val).map m.val.get = (m.arr h.val).map s.val :=
+      have : (st.m.arr h.val).map st.m.val.get = (st.m.arr h.val).map s.val :=
         List.map_congr_left (fun e _ => R.val e)
       rw [this]; exact (R.live h).map _
-    · refine rel_mk R h hok' ?_ hoth (fun h' hne => setLive_other s h _ h' hne) ?_ ?_
+    · rw [← R.cmpEq h]; exact hsorted
+    · refine rel_mk R h hok' ?_ hoth (fun h' hne => setLive_other s h _ h' hne) ?_ ?_ rfl
       · simp only [specStep, setLive_self]; rw [hemp]
       · intro e; rw [hval]; exact R.val e
       · rw [hfresh]; exact R.fresh
 
 /-- The refinement along every operation sequence. -/
-theorem refines_all {cmp} (hs : SWO cmp) : ∀ (ops : List HOp) (m : HMem) (s : HSpec),
-    Rel cmp m s → Refines cmp ops m s := by
+theorem refines_all : ∀ (ops : List HOp) (st : HState) (s : HSpec),
+    Rel st s → Refines ops st s := by
   intro ops
   induction ops with
-  | nil => intro m s _; trivial
+  | nil => intro st s _; trivial
   | cons op ops ih =>
-    intro m s R hpre
-    obtain ⟨m', r, hrun, hokr, R'⟩ := step_refines hs R op hpre
-    exact ⟨m', r, hrun, hokr, R', ih m' _ R'⟩
+    intro st s R hpre
+    obtain ⟨st', r, hrun, hokr, R'⟩ := step_refines R op hpre
+    exact ⟨st', r, hrun, hokr, R', ih st' _ R'⟩
 
 end Golib.C04
